@@ -118,7 +118,7 @@ M = [
  ("keep-fraction-always", "src/value/encode.rs", "        let us = self.nanosecond() / 1_000;\n\n        if us != 0 {\n            w.write_lenenc_str(\n                format!(\n                    \"{:04}-{:02}-{:02} {:02}:{:02}:{:02}.{:06}\",", "        let us = self.nanosecond() / 1_000;\n\n        if us != 0 || true {\n            w.write_lenenc_str(\n                format!(\n                    \"{:04}-{:02}-{:02} {:02}:{:02}:{:02}.{:06}\",", [], "fractional seconds always printed in text datetimes"),
  ("keep-datetime-bin-always-11", "src/value/encode.rs", "                if us != 0 {\n                    w.write_u8(11u8)?;\n                } else {\n                    w.write_u8(7u8)?;\n                }", "                w.write_u8(11u8)?;", ["C07"], "NOT preserving on its own: length byte 11 without the microseconds (control)"),
  ("keep-assert-to-err", "src/value/encode.rs", "            ColumnType::MYSQL_TYPE_TINY => {\n                assert!(!signed);\n                w.write_u8(*self)", "            ColumnType::MYSQL_TYPE_TINY => {\n                if signed {\n                    return Err(bad(self, c));\n                }\n                w.write_u8(*self)", [], "assert! refusal turned into Err"),
- ("keep-flush-every-packet", "src/packet.rs", "        self.to_write.truncate(4); // back to just header\n        Ok(())\n    }\n\n    fn maybe_end_packet", "        self.to_write.truncate(4); // back to just header\n        self.rw.flush()?;\n        Ok(())\n    }\n\n    fn maybe_end_packet", [], "transport flushed after every packet"),
+ ("keep-flush-every-packet", "src/packet.rs", "        self.to_write.truncate(4); // back to just header\n        Ok(())\n    }\n\n    fn maybe_end_packet", "        self.to_write.truncate(4); // back to just header\n        if let Err(e) = self.rw.flush() {\n            self.failed = Some(e.kind());\n            return Err(e);\n        }\n        Ok(())\n    }\n\n    fn maybe_end_packet", [], "transport flushed after every packet"),
  ("keep-text-col-count-early", "src/resultset.rs", "        } else {\n            v.to_mysql_text(self.result.as_mut().unwrap().writer)?;\n        }", "        } else {\n            if self.col >= self.columns.len() {\n                return Err(io::Error::new(io::ErrorKind::InvalidData, \"row has more columns than specification\"));\n            }\n            v.to_mysql_text(self.result.as_mut().unwrap().writer)?;\n        }", [], "text rows refuse surplus cells already in write_col"),
  ("keep-fieldlist-err", "src/lib.rs", "                    writers::write_column_definitions(cols, &mut self.rw, true, true)?;", "                    let _ = cols;\n                    writers::write_err(ErrorKind::ER_NOT_SUPPORTED_YET, b\"COM_FIELD_LIST\", &mut self.rw)?;", [], "FIELD_LIST answered with ERR (a legal reply)"),
  ("keep-probe-resultset", "src/lib.rs", "                            _ => {\n                                w.completed(0, 0)?;\n                            }", "                            _ => {\n                                let cols = &[Column { table: String::new(), column: \"@@x\".to_owned(), coltype: myc::constants::ColumnType::MYSQL_TYPE_VAR_STRING, colflags: myc::constants::ColumnFlags::empty() }];\n                                let mut w = w.start(cols)?;\n                                w.write_row(iter::once(\"\"))?;\n                                w.finish()?;\n                            }", [], "SELECT @@x answered with a one-row resultset"),
